@@ -11,6 +11,16 @@ mod persist_policy;
 mod record;
 mod recordlog;
 mod rolling;
+#[cfg(mrecordlog_verif)]
+pub mod verif_hooks;
+#[cfg(mrecordlog_verif)]
+pub mod verif {
+    //! Re-exports for the verification harness.
+    pub use crate::block_read_write::VecBlockWriter;
+    pub use crate::error::ReadRecordError;
+    pub use crate::frame::{FrameReader, FrameWriter};
+    pub use crate::recordlog::{RecordReader, RecordWriter};
+}
 
 pub use mem::{QueueSummary, QueuesSummary};
 pub use multi_record_log::MultiRecordLog;
